@@ -155,6 +155,20 @@ class HashObj:
         self.fn, self.data, self.key = fn, data, key
 
 
+class LockObj:
+    """threading.Lock() / RLock(): no effect on values"""
+
+    def __deepcopy__(self, memo):
+        return self
+
+
+class IdentityDecorator:
+    """functools.lru_cache(...) / cache used as a call: the wrapped function computes the same values"""
+
+    def __deepcopy__(self, memo):
+        return self
+
+
 class HashFn:
     """a concrete, named hash function (hashlib.sha256 …)"""
     _sizes = {"sha256": (32, 64), "sha512": (64, 128), "sha384": (48, 128), "sha1": (20, 64),
@@ -371,8 +385,8 @@ class Interp:
         else:
             m2, value_node, idx, st = payload
             gc[key] = _INPROGRESS
+            saved = (self.stack, self.oracle)
             try:
-                saved = (self.stack, self.oracle)
                 self.stack = []
                 ntrace = len(self.oracle.trace)
                 fr = Frame(None, m2, {})
@@ -384,6 +398,7 @@ class Interp:
                 if idx is not None:
                     v = self.index(v, idx, value_node)
             finally:
+                self.stack = saved[0]
                 if gc.get(key) is _INPROGRESS:
                     del gc[key]
         gc[key] = v
@@ -457,6 +472,10 @@ class Interp:
     def call(self, fn, args, kwargs=None, node=None):
         kwargs = kwargs or {}
         self.tick()
+        if isinstance(fn, IdentityDecorator):
+            if len(args) != 1 or kwargs:
+                raise AnalysisError(f"{self.where(node)}: memoising decorator applied to {len(args)} arguments")
+            return args[0]
         if isinstance(fn, FuncRef):
             return self.call_func(fn, args, kwargs, node)
         if isinstance(fn, BoundMethod):
@@ -483,6 +502,11 @@ class Interp:
 
     def call_func(self, f: FuncRef, args, kwargs, node=None):
         s = self.summaries.get(f.qualname)
+        if s is not None:
+            r = s(self, f, list(args), dict(kwargs), node)
+            if r is not NotImplemented:
+                return r
+        s = self.summaries.get("*")
         if s is not None:
             r = s(self, f, list(args), dict(kwargs), node)
             if r is not NotImplemented:
@@ -586,6 +610,8 @@ class Interp:
             r = h(self, obj, name)
             if r is not NotImplemented:
                 return r
+        if isinstance(obj, FuncRef) and name == "__wrapped__" and obj.node.decorator_list:
+            return obj                # functools wrappers expose the undecorated function; decorators are transparent here
         if isinstance(obj, Instance):
             if name in obj.attrs:
                 return obj.attrs[name]
@@ -661,6 +687,16 @@ class Interp:
         if name == "n":
             return Term("attr", (t, "n"), "int")
         if name == "coeffs":
+            # when the path has established the exact extension class, the coefficient tuple has its degree
+            for a, tv in self.facts.items():
+                if tv is True and isinstance(a, Term) and a.op == "type_is" and a.args[0] is t and isinstance(a.args[1], str):
+                    try:
+                        cls = self.repo.cls(a.args[1])
+                        deg = self.class_attr(cls, "degree", default=None)
+                    except AnalysisError:
+                        deg = None
+                    if isinstance(deg, int) and 0 < deg <= 12:
+                        return tuple(Term("coeff", (t, i), "int") for i in range(deg))
             return Term("attr", (t, "coeffs"), "seq")
         if name == "sgn0":
             return Term("attr", (t, "sgn0"), "int")
@@ -706,6 +742,13 @@ class Interp:
             self.exec_augassign(st, fr)
         elif t is ast.Return:
             raise _Return(self.eval(st.value, fr) if st.value is not None else None)
+        elif t is ast.With:
+            # only mutual-exclusion locks: entering and leaving them has no effect on values
+            for item in st.items:
+                cm = self.eval(item.context_expr, fr)
+                if not (isinstance(cm, LockObj) and item.optional_vars is None):
+                    raise AnalysisError(f"{self.where(st)}: with-statement on {cm!r} outside the fragment")
+            self.exec_block(st.body, fr)
         elif t is ast.If:
             if self.truth(self.eval(st.test, fr), st.test):
                 self.exec_block(st.body, fr)
@@ -859,7 +902,7 @@ class Interp:
         fr = next((f for f in reversed(self.stack) if f.func is not None), None)
         if fr is None:
             return "plain"
-        kind, detail = memo.classify(fr.func.node, name)
+        kind, detail = memo.classify(fr.func.node, name, {n: g.node for n, g in fr.func.module.functions.items()})
         if node is None:
             node = memo.first_read(fr.func.node, name)
         where = self.where(node)
@@ -938,6 +981,8 @@ class Interp:
         self.loop_counter += 1
         lid = f"L{self.loop_counter}@{self.where(st)}"
         elem = self.generic_elem(it, st)
+        if isinstance(it, SymSeq) and isinstance(it.src, tuple) and len(it.src) == 2 and it.src[0] == "map":
+            it = it.src[1]              # an element-wise image (map): the loop ranges over the underlying sequence
         assigned = _assigned_names(st.body)
         targets = _assigned_names_target(st.target)
         carried = {}
@@ -975,7 +1020,7 @@ class Interp:
 
     def exec_while(self, st, fr):
         key = (fr.func.qualname if fr.func else None)
-        hook = self.while_hooks.get(key)
+        hook = self.while_hooks.get(key) or self.while_hooks.get("*")
         if hook is not None:
             r = hook(self, st, fr)
             if r is not NotImplemented:
@@ -1056,7 +1101,24 @@ class Interp:
         return self.lookup(e.id, fr, e)
 
     def e_JoinedStr(self, e, fr):
-        return "<f-string>"
+        # f-strings are mostly error messages; one built from concrete str/int pieces only (an attribute name, …) is folded
+        parts = []
+        for v in e.values:
+            if isinstance(v, ast.Constant) and isinstance(v.value, str):
+                parts.append(v.value)
+            elif isinstance(v, ast.FormattedValue) and v.conversion == -1 and v.format_spec is None \
+                    and isinstance(v.value, (ast.Name, ast.Constant)):
+                try:
+                    x = self.eval(v.value, fr)
+                except AnalysisError:
+                    return "<f-string>"
+                if isinstance(x, (str, int)) and not isinstance(x, bool):
+                    parts.append(str(x))
+                else:
+                    return "<f-string>"
+            else:
+                return "<f-string>"
+        return "".join(parts)
 
     def _display(self, e, fr):
         out = []
@@ -1182,6 +1244,13 @@ class Interp:
         if sa in ("int", "bool", "any") and sb in ("int", "bool", "any"):
             if op == "truediv":
                 return Term("truediv", (a, b), "float")
+            if op == "mod" and isinstance(a, Term) and isinstance(b, int) and not isinstance(b, bool) and b > 0 \
+                    and (sa == "int" or self.facts.get(Term("isinstance", (a, "int"), "bool")) is True):
+                # x % m is x when the path has established 0 <= x < m
+                from .ranges import interval_of_facts
+                lo, hi, _holes, _ = interval_of_facts(list(self.facts.items()), a)
+                if lo >= 0 and hi <= b - 1:
+                    return a
             return t_arith(op, a, b)
         if sa == "float" or sb == "float":
             return Term(op, (a, b), "float")
@@ -1230,6 +1299,10 @@ class Interp:
                     r = Term("isnone", (x,), "bool")
                 else:
                     r = x is None
+            elif any(isinstance(x, Term) and x.op == "type" for x in (a, b)) and a is not b:
+                # the exact type of a symbolic value (an int may be a bool or a subclass …) is not known: both outcomes
+                ty, other = (a, b) if isinstance(a, Term) and a.op == "type" else (b, a)
+                r = Term("type_is", (ty.args[0], getattr(other, "qual", None) or getattr(other, "qualname", None) or repr(other)), "bool")
             else:
                 r = a is b
             if t is ast.IsNot:
@@ -1415,6 +1488,21 @@ class Interp:
                 return Term("dict_get", (self.shared_name(base), _hashable(idx)), "any")
         if isinstance(base, dict) and _has_abstract(idx):
             return Term("dict_get", (self.shared_name(base), _hashable(idx)), "any")
+        if is_sym(idx) and isinstance(base, (tuple, list)) and base and isinstance(idx, Term) and idx.sort == "int" \
+                and all(isinstance(x, bytes) for x in base):
+            # a table that tabulates I2OSP(k, n) for k = 0 .. len-1 is that function on 0 <= k < len
+            n = len(base[0])
+            if all(len(x) == n and x == k.to_bytes(n, "big") for k, x in enumerate(base) if k < 256 ** n) and len(base) <= 256 ** n:
+                from .ranges import interval_of_facts
+                lo, _hi, _h, _o = interval_of_facts(list(self.facts.items()), idx)
+                if idx.op in ("len", "range_elem") and (idx.op == "len" or (isinstance(idx.args[0], int) and idx.args[0] >= 0)):
+                    lo = max(lo, 0)
+                if lo < 0:
+                    raise AnalysisError(f"{self.where(node)}: possibly negative index {idx!r} into a lookup table")
+                hi_ok = self.compare(ast.Lt(), idx, len(base), node)
+                if not self.truth(hi_ok, node):
+                    self.raise_exc("IndexError", "tuple index out of range", node)
+                return Term("i2osp", (idx, n), "bytes")
         if is_sym(idx):
             raise AnalysisError(f"{self.where(node)}: symbolic index {idx!r} into concrete container")
         if isinstance(base, External) or isinstance(base, ClassInfo):
@@ -1470,7 +1558,7 @@ class Interp:
 
     def comprehension(self, e, fr):
         if len(e.generators) != 1:
-            raise AnalysisError(f"{self.where(e)}: nested comprehension outside the fragment")
+            return self._nested_comprehension(e, fr, 0)
         g = e.generators[0]
         it = self.eval(g.iter, fr)
         saved = dict(fr.env)
@@ -1497,6 +1585,29 @@ class Interp:
                     fr.env[nm] = saved[nm]
                 else:
                     fr.env.pop(nm, None)
+
+    def _nested_comprehension(self, e, fr, k):
+        """several `for` clauses: every iterable must be concrete (a symbolic one has no generic-element summary here)"""
+        if k == len(e.generators):
+            return [self.eval(e.elt, fr)]
+        g = e.generators[k]
+        itv = self.eval(g.iter, fr)
+        if is_sym(itv):
+            raise AnalysisError(f"{self.where(e)}: nested comprehension over a symbolic sequence outside the fragment")
+        saved = dict(fr.env)
+        out = []
+        try:
+            for x in self.iter_concrete(itv, e):
+                self.assign(g.target, x, fr)
+                if all(self.truth(self.eval(c, fr), c) for c in g.ifs):
+                    out.extend(self._nested_comprehension(e, fr, k + 1))
+        finally:
+            for nm in _assigned_names_target(g.target):
+                if nm in saved:
+                    fr.env[nm] = saved[nm]
+                else:
+                    fr.env.pop(nm, None)
+        return out
 
     # ------------------------------------------------------------------ call
     def e_Call(self, e, fr):
@@ -1575,12 +1686,48 @@ class Interp:
             d = self.domain.decide(self, atom)
             if d is not None:
                 return d == pol
+        d = self._interval_decide(atom)
+        if d is not None:
+            return d == pol
         choice = self.oracle.next(self.where(node))
         self.facts[atom] = (choice == pol)
         self.fact_log.append((atom, choice == pol, self.where(node)))
         if self.domain is not None:
             self.domain.assume(self, atom, choice == pol)
         return choice
+
+    def _interval_decide(self, atom):
+        """a comparison of a term with an integer constant that the interval facts of the path already settle"""
+        if not (isinstance(atom, Term) and atom.op in ("lt", "eq") and len(atom.args) == 2):
+            return None
+        a, b = atom.args
+        if isinstance(a, Term) and isinstance(b, int) and not isinstance(b, bool):
+            X, c, left = a, b, True
+        elif isinstance(b, Term) and isinstance(a, int) and not isinstance(a, bool):
+            X, c, left = b, a, False
+        else:
+            return None
+        from .ranges import interval_of_facts
+        lo, hi, holes, _ = interval_of_facts(list(self.facts.items()), X)
+        if lo == -math.inf and hi == math.inf and not holes:
+            return None
+        if atom.op == "eq":
+            if c < lo or c > hi or c in holes:
+                return False
+            if lo == hi == c:
+                return True
+            return None
+        if left:            # X < c
+            if hi < c:
+                return True
+            if lo >= c:
+                return False
+        else:               # c < X
+            if lo > c:
+                return True
+            if hi <= c:
+                return False
+        return None
 
     def assume(self, cond, truth=True, why="assumption"):
         atom, pol = atom_of(cond)
